@@ -18,7 +18,8 @@ RULE = ('Hypothesis-drawn trees (empty lists, Unicode leaves, depth <= 200, widt
         'pickle round trip in-process and through a fork-based pool (same ids, '
         'hash; tree built in the worker compares/hashes equal), ids created in '
         'concurrent workers pairwise distinct, dfs/bfs/count_*/filter_nodes equal '
-        'the model\'s pre-order/level order, binary_search validity.  Non-trivial: '
+        'the model\'s pre-order/level order, binary_search validity; chains up to 5000 '
+        'deep (nothing may recurse on the depth).  Non-trivial: '
         'a pair differing in exactly one position / one length, or a tree with '
         'sharing, or depth >= 50 / width >= 100; distinct = distinct case.')
 ASSUMPTIONS = [
@@ -109,7 +110,10 @@ def case_strategy():
     lst = st.builds(lambda ts, k: dict(kind='list', a=ts, depth=k),
                     gen_sexpr.tree_list(6, 15), st.sampled_from([None, 1, 2, 3]))
     dag = gen_sexpr.dag_plan().map(lambda p: dict(kind='dag', a=p[0], dec=p[1]))
-    return st.one_of(single, pair, pair, lst, dag)
+    # very deep chains are described by parameters only (the case must stay JSON-able)
+    deep = st.builds(lambda d, w, e: dict(kind='deep', depth=d, width=w, edit=e),
+                     st.sampled_from([500, 1500, 5000]), st.integers(0, 2), st.booleans())
+    return st.one_of(single, single, pair, pair, lst, dag, deep)
 
 
 def V(acc, key, detail, case):
@@ -333,8 +337,40 @@ def run_case(dd, case, acc, pool):
         return False, [case['kind']]
 
 
+def check_deep(dd, case, acc, pool):
+    """Depth far beyond Python's recursion limit: nothing in ddsmt.nodes may recurse."""
+    nodes = dd.nodes
+    a = gen_sexpr.deep_chain(case['depth'], case['width'])
+    b = gen_sexpr.deep_chain(case['depth'], case['width'], leaf='y' if case['edit'] else 'x')
+    na, nb = model.to_node(dd, a), model.to_node(dd, b)
+    want = not case['edit']
+    if (na == nb) != want or (hash(na) == hash(nb)) < want:
+        V(acc, 'eq/deep', f'depth {case["depth"]}: == gives {na == nb}, model {want}', case)
+    c = copy.deepcopy(na)
+    if not (c == na) or c.id == na.id:
+        V(acc, 'deepcopy/deep', f'depth {case["depth"]}', case)
+    r = pickle.loads(pickle.dumps(na))
+    if not (r == na) or [x.id for x in nodes.dfs(r)] != [x.id for x in nodes.dfs(na)]:
+        V(acc, 'pickle/deep', f'depth {case["depth"]}', case)
+    n_nodes = len(model.preorder(a))
+    if nodes.count_nodes(na) != n_nodes or sum(1 for _ in nodes.dfs(na)) != n_nodes or sum(1 for _ in nodes.bfs(na)) != n_nodes:
+        V(acc, 'dfs/deep', f'depth {case["depth"]}', case)
+    if str(na).count('(') != case['depth']:
+        V(acc, 'str/deep', f'depth {case["depth"]}', case)
+    red = nodes.reduplicate([na, na])
+    ids = [x.id for x in nodes.dfs(red)]
+    if len(ids) != len(set(ids)):
+        V(acc, 'reduplicate/deep', f'depth {case["depth"]}', case)
+    sub = nodes.substitute(na, {dd.nodes.Node('x'): dd.nodes.Node('z')})
+    if str(sub).count('z') != 1:
+        V(acc, 'substitute/deep', f'depth {case["depth"]}', case)
+
+
 def _run_case(dd, case, acc, pool):
     kind = case['kind']
+    if kind == 'deep':
+        check_deep(dd, case, acc, pool)
+        return True, ['deep', f'depth-{case["depth"]}']
     classes = [kind]
     nt = False
     if kind == 'single':
